@@ -180,6 +180,9 @@ func obsRights(s obsSpell, f obsFrom, join bool, l obsOperand) []obsOperand {
 		lit("hex-number", "0x616263"),
 		lit("integer", "5"),
 		lit("negative-integer", "-5"),
+		// a literal kind the search observers do not substitute (they look at the comparison,
+		// may normalise it, and leave it)
+		lit("float", "1.5"),
 		{Name: "placeholder", Text: s.placeholder(), Kind: "placeholder"},
 		{Name: "null", Text: "null", Kind: "null"},
 		{Name: "paren-string", Text: "('abc')", Kind: "expr"},
@@ -308,12 +311,24 @@ func obsCtxs() []obsCtx {
 type obsKind struct {
 	Name string
 	Join bool
+	// Assign: the protected columns the statement itself assigns a literal to (the keys of the
+	// assignment targets as the tree holds them): a later observer of the chain substitutes
+	// these values and so re-serialises the whole statement, comparison included.
+	Assign []string
+	// Multi: a kind of the "several configured columns with different settings in one
+	// statement" family (obsMultiKinds): the statement writes protected columns AND hosts the
+	// comparison, so that what an earlier observer of the chain did to the comparison before
+	// it declined to rewrite it is carried - or not - into the text a later observer sends.
+	// Enumerated over every operator with the operands as written and exchanged (enumerateOp).
+	Multi bool
+	// Narrow: the kind is enumerated in the sections A and X only (obsRuleQuick / obsRuleThorough)
+	Narrow bool
 	// pre(f) + condition; sub(f, cond) = a sub-select with the condition over the same tables
 	Pre func(f obsFrom) string
 	Sub func(f obsFrom, cond string) string
 }
 
-func obsKinds() []obsKind {
+func obsKinds(thorough bool) []obsKind {
 	idOf := func(f obsFrom, join bool) string {
 		if join {
 			return f.Q1 + ".id1"
@@ -323,7 +338,7 @@ func obsKinds() []obsKind {
 	single := func(f obsFrom, cond string) string {
 		return "id1 in (select id1 from " + f.Single + " where " + cond + ")"
 	}
-	return []obsKind{
+	kinds := []obsKind{
 		{Name: "select-where", Pre: func(f obsFrom) string { return "select id1, p1 from " + f.Single + " where " }, Sub: single},
 		{Name: "select-join-on", Join: true, Pre: func(f obsFrom) string { return "select " + idOf(f, true) + " from " + f.Join + " on " },
 			Sub: func(f obsFrom, cond string) string {
@@ -334,11 +349,46 @@ func obsKinds() []obsKind {
 				return idOf(f, true) + " in (select " + idOf(f, true) + " from " + f.Comma + " where " + cond + ")"
 			}},
 		{Name: "update-where", Pre: func(f obsFrom) string { return "update " + f.Single + " set p1 = 'n' where " }, Sub: single},
-		{Name: "update-protected-set-where", Pre: func(f obsFrom) string { return "update " + f.Single + " set e1 = 'new', p1 = 'n' where " }, Sub: single},
+		{Name: "update-protected-set-where", Assign: []string{"e1"}, Multi: true,
+			Pre: func(f obsFrom) string { return "update " + f.Single + " set e1 = 'new', p1 = 'n' where " }, Sub: single},
 		{Name: "delete-where", Pre: func(f obsFrom) string { return "delete from " + f.Single + " where " }, Sub: single},
 		{Name: "insert-select-where", Pre: func(f obsFrom) string { return "insert into t2 (id2, p2) select id1, p1 from " + f.Single + " where " }, Sub: single},
 		{Name: "select-having", Pre: func(f obsFrom) string { return "select id1 from " + f.Single + " group by id1 having " }, Sub: single},
 	}
+	return append(kinds, obsMultiKinds(thorough, single)...)
+}
+
+// obsMultiKinds: UPDATE statements that assign literals to protected columns of other classes
+// than the compared column - one kind per class of assigned column (the observer that
+// substitutes the assigned value, and with it the place in the chain from which the statement
+// is re-serialised, depends on the class) and one kind that assigns to a column of every
+// protected class at once. Quick: the tokenized target and all classes at once (the encrypted
+// target is the kind update-protected-set-where above); thorough: every class of obsTargets.
+func obsMultiKinds(thorough bool, single func(f obsFrom, cond string) string) []obsKind {
+	var out []obsKind
+	one := func(label, col string) {
+		out = append(out, obsKind{Name: "update-" + label + "-set-where", Assign: []string{col}, Multi: true, Narrow: true,
+			Pre: func(f obsFrom) string { return "update " + f.Single + " set " + col + " = 'new', p1 = 'n' where " }, Sub: single})
+	}
+	one("tokenized", "k1")
+	if thorough {
+		one("searchable", "sb1")
+		one("searchable-acrastruct", "ss1")
+		one("masked", "m1")
+		one("typed", "y1")
+		one("searchable-default-envelope", "d")
+	}
+	var all, sets []string
+	for _, c := range obsTargets {
+		if isProtectedClass(obsClassOf("t1", c)) {
+			all = append(all, c)
+			sets = append(sets, c+" = 'n"+c+"'")
+		}
+	}
+	pre := "set " + strings.Join(sets, ", ") + ", p1 = 'n' where "
+	out = append(out, obsKind{Name: "update-every-protected-class-set-where", Assign: all, Multi: true, Narrow: true,
+		Pre: func(f obsFrom) string { return "update " + f.Single + " " + pre }, Sub: single})
+	return out
 }
 
 // buildCmp assembles one comparison statement and its description.
@@ -402,8 +452,8 @@ func buildCmp(s obsSpell, k obsKind, f obsFrom, l, r obsOperand, op obsOp, cx ob
 		}
 		addRef(obsOperand{Kind: "col", Key: key, Class: clsSearchStr})
 	}
-	if k.Name == "update-protected-set-where" {
-		d.Assign = []string{"e1"}
+	if len(k.Assign) > 0 {
+		d.Assign = append([]string(nil), k.Assign...)
 	}
 	return k.Pre(f) + cond, d
 }
@@ -625,7 +675,10 @@ var obsRepPairs = map[bool][][2]string{
 	false: {{"searchable-acrablock", "string"}, {"searchable-acrablock", "placeholder"}, {"searchable-acrablock", "other-searchable-column"},
 		{"searchable-acrablock", "plain-column"}, {"tokenized", "string"}, {"plain", "string"},
 		// an unprotected comparison whose right side is an expression, next to searchable conditions
-		{"plain", "underscore-binary-string"}},
+		{"plain", "underscore-binary-string"},
+		// a comparison the search observers look at (and may normalise) but rewrite only under the
+		// equality operators, next to comparisons they do rewrite (contexts two-searchable, ...)
+		{"searchable-acrablock", "underscore-binary-string"}, {"tokenized", "underscore-binary-string"}},
 	true: {{"t1-searchable-acrablock", "string"}, {"t1-searchable-acrablock", "placeholder"}, {"t1-searchable-acrablock", "other-table-searchable-column"},
 		{"t1-searchable-acrablock", "other-table-plain-column"}, {"t1-tokenized", "string"}, {"t2-shared-name-plain", "string"}},
 }
@@ -653,14 +706,19 @@ func isRepPair(join bool, l, r string) bool {
 	return false
 }
 
+// contexts of the narrow kinds in the thorough tier
+var obsNarrowCtxsThorough = []string{"operands-exchanged", "in-sub-select", "two-searchable", "not", "and-plain", "paren"}
+
 const obsRuleQuick = "A: every statement kind x FROM 'plain' x every left side x every operator x every right side (less the rarer spellings: " +
 	"quote inside, negative integer, function call, sum, sub-select, same column, double-quoted, cast placeholder), context 'alone'; " +
 	"A2: every kind x every other FROM variant x every left side x operators {=, !=, <, like, in, is null} x right sides {string, placeholder, other searchable column, plain column}, context 'alone'; " +
-	"B: every kind x FROM 'plain' x 7 representative (left, right) pairs (searchable/string, searchable/placeholder, searchable/searchable column, searchable/plain column, tokenized/string, plain/string, plain/_binary string) x every operator x every context; " +
-	"C: every kind x FROM 'plain' x every left x every right (as in A) x operators {=, <, like} x contexts {operands exchanged, in sub-select}"
+	"B: every kind x FROM 'plain' x 9 representative (left, right) pairs (searchable/string, searchable/placeholder, searchable/searchable column, searchable/plain column, tokenized/string, plain/string, plain/_binary string, searchable/_binary string, tokenized/_binary string) x every operator x every context; " +
+	"C: every kind x FROM 'plain' x every left x every right (as in A) x operators {=, <, like} x contexts {operands exchanged, in sub-select}; " +
+	"X (several configured columns with different settings in one statement, through the complete observer chain in its production order): the kinds that assign literals to protected columns and host the comparison in WHERE - UPDATE SET <column> = '<literal>' with the assigned column encrypted, with the assigned column consistently tokenized, and one UPDATE assigning to a column of every protected class at once (searchable acrablock/acrastruct/default envelope, encrypted, tokenized, masked, typed) - x FROM 'plain' x every left side x every operator x every right side (as in A) x the operands as written (this is A) and exchanged (value <op> column); the kinds added for X (tokenized, every class) are enumerated in A and X only; right sides now include a float literal (1.5), a literal kind the search observers look at and leave"
 const obsRuleThorough = "A: every statement kind x every FROM variant x every left side x every operator x every right side, context 'alone'; " +
 	"B: every kind x FROM 'plain' x every left side x every operator x every right side x every context (the full product for FROM 'plain'); " +
-	"B2: every kind x every other FROM variant x 6 representative (left, right) pairs x every operator x every context"
+	"B2: every kind x every other FROM variant x 6 representative (left, right) pairs x every operator x every context; " +
+	"X (several configured columns with different settings in one statement): UPDATE SET <column> = '<literal>' WHERE <comparison> with the assigned column of every protected class (encrypted: in the full product above; tokenized, searchable acrablock/acrastruct/default envelope, masked, typed) and one UPDATE assigning to a column of every protected class at once: every FROM variant x every left side x every operator x every right side, context 'alone', and for FROM 'plain' the contexts operands exchanged, in sub-select, two searchable, not, and-plain, paren"
 
 // enumerateOp calls emit for every comparison statement of the tier's space that uses
 // operator op (the rules above go to the evidence). The phase evaluates operator after
@@ -688,6 +746,16 @@ func (sp *obsCmpSpace) enumerateOp(thorough bool, op obsOp, emit func(sql string
 					rep := isRepPair(k.Join, l.Name, r.Name)
 					if thorough {
 						put(k, f, l, r, sp.ctxs[0])
+						if k.Narrow {
+							if plain { // X
+								for _, cx := range sp.ctxs[1:] {
+									if inList(obsNarrowCtxsThorough, cx.Name) {
+										put(k, f, l, r, cx)
+									}
+								}
+							}
+							continue
+						}
 						if plain || rep {
 							for _, cx := range sp.ctxs[1:] {
 								put(k, f, l, r, cx)
@@ -698,6 +766,16 @@ func (sp *obsCmpSpace) enumerateOp(thorough bool, op obsOp, emit func(sql string
 					rare := obsRightThoroughOnly[r.Name]
 					if plain && !rare { // A
 						put(k, f, l, r, sp.ctxs[0])
+					}
+					if plain && !rare && k.Multi { // X
+						for _, cx := range sp.ctxs {
+							if cx.Name == "operands-exchanged" {
+								put(k, f, l, r, cx)
+							}
+						}
+					}
+					if k.Narrow {
+						continue
 					}
 					if !plain && inList(obsRepRight[k.Join], r.Name) && inList(obsRepOps, op.Name) { // A2
 						put(k, f, l, r, sp.ctxs[0])
@@ -725,7 +803,7 @@ func (sp *obsCmpSpace) enumerateOp(thorough bool, op obsOp, emit func(sql string
 
 func newObsCmpSpace(thorough bool) *obsCmpSpace {
 	s := curSpell()
-	return &obsCmpSpace{kinds: obsKinds(), froms: obsFroms(s, thorough), ops: obsOps(), ctxs: obsCtxs(), spell: s}
+	return &obsCmpSpace{kinds: obsKinds(thorough), froms: obsFroms(s, thorough), ops: obsOps(), ctxs: obsCtxs(), spell: s}
 }
 
 func (sp *obsCmpSpace) dims() map[string]int {
